@@ -55,6 +55,12 @@ FIXED = [
  ("C07", "triangle_aspect_ratio returns its attribute", "triangle_aspect_ratio returned None (no return statement) and raised on non-triangular faces"),
  ("C07", "interpolation functions reset the output attribute", "interpolate_faces_to_vertices / average_corners_to_vertices / average_corners_to_faces accumulated onto an output attribute that already held values (constants no longer interpolated to the constant)"),
  ("C18", "face-based frame fields align order-n frames", "face-based frame field constraint hard-coded **4: for orders != 4 no branch was tangent to the border/feature edge unless the face basis happens to be aligned with it (custom connections)"),
+ ("C02", "cell_faces records the owner cell", "cell_faces owner list never filled; rebuilding a volume mesh appended its cell-face records a second time"),
+ ("C02", "volume meshes can be built with config.complete_faces_from_cells = False", "building a volume mesh with complete_faces_from_cells=False raised KeyError in _generate_cell_faces"),
+ ("C02", "rebuilding a mesh does not flag every edge", "rebuilding from an already built mesh (RawMeshData(mesh), subdivision, merge) flagged every edge as a hard edge"),
+ ("C02", "_generate_cell_corners fills the owner list", "cell corners pre-filled with vertices only: cell indices appended to the vertex list instead of the owner list"),
+ ("C02", "edge attributes survive the removal of invalid edges", "dropping an invalid edge lost the values of dense edge attributes (ValueError for vector ones) and the custom default of sparse ones"),
+ ("C02", "cell/face connectivity works when cells are numpy rows", "face_to_cells / cell_to_face / in_cell_face_index raised ValueError on volume meshes whose cells are numpy rows (from_arrays)"),
  ("C14", "circumcenter lies in the plane", "geometry.circumcenter dropped the normal offset of the triangle's plane (dual_mesh circumcenter mode put vertices in the wrong plane)"),
 ]
 
